@@ -37,6 +37,8 @@ func init() {
 	ruleText["R04.6"] = "same analysis as C11/R11.5 (closure values capture a clone of the defining frame)"
 	ruleText["R04.8"] = "in no run-time closure is a frame slot (frame.data[i], directly or through a local alias of the vector) assigned the plain result v(f) of a value generator; frozen exception: the result slots of an interpreted call (call: rvalues)"
 	ruleText["R04.9"] = "in every generator, a statement replacing the node's own frame slot (data[i] = v, i captured from n.findex) by a value produced in place (reflect.New(T).Elem(), a received value) is unreachable, on the flow graph of its function literal pruned under n.anc.kind == assignStmt and CanSet(), i.e. the value is Set into the destination when the parent is an assignment"
+	ruleText["R04.10"] = "every reflect.Value.Set of a result in the closures of _append and appendSlice has an argument built by reflect.Append or reflect.AppendSlice (the operand itself only for append(s) without appended values)"
+	ruleText["R04.11"] = "same analysis as C01/R01.14 (the assign operation is skipped by cfg for single assignments only)"
 	ruleText["R04.7"] = "same analysis as C01/R01.8 (result stored on every path of the run-time closure)"
 }
 
@@ -70,6 +72,8 @@ func runC04(c *Config, r *Report) {
 	c01R8(ic, r, "R04.7", nil)
 	c04R8(ic, r)
 	c04R9(ic, r)
+	c04R10(ic, r)
+	c01R14(ic, r, "R04.11")
 }
 
 // c04R5: the range shadow copy.
@@ -129,11 +133,27 @@ func c04R5(ic *IC, r *Report) {
 		return
 	}
 	detaches := false
+	var plain []string
 	for _, st := range defClause.Body {
 		ast.Inspect(st, func(m ast.Node) bool {
+			if _, isLit := m.(*ast.FuncLit); isLit {
+				return true
+			}
 			rs, ok := m.(*ast.ReturnStmt)
 			if !ok || len(rs.Results) != 1 {
 				return true
+			}
+			// a return of the case itself (not inside the literal it returns)
+			inLit := false
+			for _, p := range enclosingPath(defClause, rs) {
+				if _, ok := p.(*ast.FuncLit); ok {
+					inLit = true
+				}
+			}
+			if !inLit {
+				if _, ok := unparen(rs.Results[0]).(*ast.FuncLit); !ok {
+					plain = append(plain, "return "+types.ExprString(rs.Results[0])+" at "+ic.pos(rs.Pos()))
+				}
 			}
 			if fl, ok := unparen(rs.Results[0]).(*ast.FuncLit); ok {
 				ast.Inspect(fl.Body, func(k ast.Node) bool {
@@ -148,6 +168,8 @@ func c04R5(ic *IC, r *Report) {
 			return true
 		})
 	}
+	r.Check(len(plain) == 0, "R04.5", "genValueRangeArray/default/always-detached", ic.pos(defClause.Pos()), "the default case always returns the detaching closure",
+		"the default case of genValueRangeArray can also "+strings.Join(plain, ", ")+" (the operand's plain generator): for such operands (a field, an element, a dereference) the range statement iterates over the live array or slice header, so writes made by the loop body to elements not yet visited, or appends to the ranged slice, are seen by the loop")
 	r.Check(detaches, "R04.5", "genValueRangeArray/default/detached-copy", ic.pos(defClause.Pos()), "the ranged-over value is rebuilt from Interface(): a copy for arrays",
 		"the default case of genValueRangeArray no longer returns reflect.ValueOf(value(f).Interface()): the range statement iterates over the live array instead of a copy, so modifications made by the loop body are seen by later iterations")
 }
@@ -530,5 +552,58 @@ func c04R9(ic *IC, r *Report) {
 	}
 	if nSites < 3 {
 		r.Errorf("R04.9: only %d own-slot replacements by produced values found (struct literals and channel receives expected)", nSites)
+	}
+}
+
+// c04R10: append builds its result with reflect.Append / reflect.AppendSlice, which allocate
+// and copy exactly as the Go builtin does. A result that is a slice view of the *appended*
+// operand (Slice, Slice3 of the source) shares the source's backing array: writes through the
+// result are seen in the source. The only result not produced by reflect's append is the
+// slice itself when nothing is appended (append(s)).
+func c04R10(ic *IC, r *Report) {
+	info := ic.Info
+	n := 0
+	for _, name := range []string{"_append", "appendSlice"} {
+		fi := ic.F[name]
+		if fi == nil || fi.Decl.Body == nil {
+			continue
+		}
+		for ci, fl := range (&c02ctx{ic: ic}).closuresOf(fi) {
+			var bad []string
+			stores := 0
+			ast.Inspect(fl.Body, func(m ast.Node) bool {
+				c, ok := m.(*ast.CallExpr)
+				if !ok || !isCallTo(info, c, "reflect.Value.Set") || len(c.Args) != 1 {
+					return true
+				}
+				stores++
+				arg := c.Args[0]
+				if len(callsIn(info, arg, true, "reflect.Append", "reflect.AppendSlice")) > 0 {
+					return true
+				}
+				// append(s): the slice itself
+				if call, ok := unparen(arg).(*ast.CallExpr); ok && len(call.Args) == 1 {
+					if _, isIdent := unparen(call.Fun).(*ast.Ident); isIdent && len(fi.Decl.Body.List) > 0 {
+						// accepted only in the closure installed for a call without appended operands
+						for _, p := range enclosingPath(fi.Decl.Body, fl) {
+							if cc, ok := p.(*ast.CaseClause); ok && len(cc.List) == 1 && strings.Contains(types.ExprString(cc.List[0]), "== 2") {
+								return true
+							}
+						}
+					}
+				}
+				bad = append(bad, types.ExprString(c)+" at "+ic.pos(c.Pos()))
+				return true
+			})
+			if stores == 0 {
+				continue
+			}
+			n++
+			r.Check(len(bad) == 0, "R04.10", fmt.Sprintf("%s/closure#%d/result-from-reflect-append", name, ci+1), ic.pos(fl.Pos()), "the result is produced by reflect.Append / reflect.AppendSlice",
+				"the result of append is stored from "+strings.Join(bad, ", ")+", not from reflect.Append/AppendSlice: the result can share the backing array of the appended operand (append(nil, src...) returning a view of src), so element writes through one slice show in the other")
+		}
+	}
+	if n < 3 {
+		r.Errorf("R04.10: only %d result-storing closures found in the append generators", n)
 	}
 }
